@@ -259,6 +259,29 @@ pub fn elim_dag(nodes: &mut Vec<J>, t: &Ty) -> usize {
         }
     }
 }
+/// all types of depth <= d
+pub fn tys_up_to(d: usize) -> Vec<Ty> {
+    if d == 0 { return vec![Ty::Unit]; }
+    let s = tys_up_to(d - 1);
+    let mut out = s.clone();
+    for a in &s { for b in &s { out.push(Ty::sum(a.clone(), b.clone())); out.push(Ty::prod(a.clone(), b.clone())); } }
+    out
+}
+/// all values of a type (as the spec's trees), for small types
+pub fn all_vals(t: &Ty) -> Vec<J> {
+    match t {
+        Ty::Unit => vec![json!(["u"])],
+        Ty::Sum(a, b) => all_vals(a).into_iter().map(|v| json!(["L", v])).chain(all_vals(b).into_iter().map(|v| json!(["R", v]))).collect(),
+        Ty::Prod(a, b) => { let (x, y) = (all_vals(a), all_vals(b)); x.iter().flat_map(|p| y.iter().map(move |q| json!(["P", p, q]))).collect() }
+    }
+}
+/// sums of two different depth-2 types of equal bit width: the layouts in which padding of one arm meets none in the other
+pub fn equal_width_sums() -> Vec<Ty> {
+    let s = tys_up_to(2);
+    let mut out = vec![];
+    for a in &s { for b in &s { if a != b && a.width() == b.width() && a.width() > 0 { out.push(Ty::sum(a.clone(), b.clone())); } } }
+    out
+}
 /// main := comp (pair w1 w2) (comp (pair (take E_T) (drop E_U)) unit): two witnesses whose types the program forces
 pub fn typed_witness_pair(t: &Ty, u: &Ty) -> J {
     let mut nodes: Vec<J> = vec![json!(["witness", 0, 0]), json!(["witness", 0, 0]), json!(["pair", 1, 2])];
